@@ -301,6 +301,10 @@ func c06Specs() []cfg.Spec {
 	}
 	out = append(out, cfg.Spec{Ext: cfg.ExtAll, Unsafe: true, XHTML: true}, cfg.Spec{Ext: cfg.ExtGFM, HardWraps: true}, cfg.Spec{Ext: cfg.ExtFootnote, XHTML: true},
 		cfg.Spec{Ext: cfg.ExtTypographer, Unsafe: true}, cfg.Spec{Ext: cfg.ExtAll, AutoHeadingID: true}, cfg.Spec{Ext: cfg.ExtCore, Attribute: true})
+	// extensions built with options, and options that arrive by two routes (constructor and renderer option): "the same
+	// configuration" must mean the same bytes for every instance built from it
+	out = append(out, cfg.Spec{Ext: cfg.ExtAll, Rich: true}, cfg.Spec{Ext: cfg.ExtAll, Rich: true, Rich2: true, XHTML: true},
+		cfg.Spec{Ext: cfg.ExtFootnote, Rich: true, Rich3: true}, cfg.Spec{Ext: cfg.ExtAll, Rich: true, Rich3: true, AutoHeadingID: true})
 	return out
 }
 
